@@ -1008,7 +1008,9 @@ impl World {
 
     pub fn alive(&self) -> String {
         let dead: Vec<usize> = self.tasks.iter().enumerate().filter(|(_, t)| t.is_finished()).map(|(i, _)| i).collect();
-        if dead.is_empty() { "alive".to_owned() } else { format!("ended:{:?}", dead).replace(' ', "") }
+        // (the first service task that has ended: which of the later ones have ended by now too is a matter of timing - a
+        // client whose configuration is unusable ends its tasks a moment after the server has ended its own)
+        if dead.is_empty() { "alive".to_owned() } else { format!("ended:[{}]", dead[0]) }
     }
 }
 
